@@ -129,6 +129,22 @@ theorem annotsLoop_fine {d : Desc} {P : Nat → Prop} : ∀ (ids acc : List Nat)
     | err e => exact errP_fine _ _ _
     | ok v => exact ih _ fun b hb => h b (by simp [hb])
 
+/-- the initialiser of a `Lazy` annotation array (given directly, by reference, or absent) -/
+theorem lazyInit_fine (d : Desc) (f : CellForm) : Fine (filtersOf d) (fun _ => True) (lazyInit f) := by
+  cases f with
+  | direct ids => exact annotsLoop_fine ids [] fun _ _ => trivial
+  | absent => exact okP_fine _ _ _
+  | ref r =>
+    refine .get _ _ _ trivial fun x hx => ?_
+    cases x with
+    | oof => exact absurd rfl hx
+    | ok v => exact okP_fine _ _ _
+    | err e =>
+      simp only
+      split
+      · exact okP_fine _ _ _
+      · exact errP_fine _ _ _
+
 theorem fromPrim_fine {d : Desc} (hok : okRanks d = true) (T id : Nat) (o : Obj) (hf : d.find id = some o) :
     Fine (filtersOf d) (fun r' => rk d r' < rk d id) (fromPrim d T id o.kind) := by
   have hdep : ∀ x, x ∈ depsOf d id → rk d x < rk d id := fun x hx => dep_lt hok hf hx
